@@ -13,15 +13,20 @@ from vlib.proto import hexs, unhex
 from checks import xpcomp as X
 from checks import xpparsecomp
 
-LEAN_TARGETS = ["LyModel.Props.C08", "LyModel.Props.C08Parse"]
+LEAN_TARGETS = ["LyModel.Props.C08", "LyModel.Props.C08Parse", "LyModel.Props.C08Yang"]
 AUDIT = "Audit/C08.lean"
 GENERATED = ["XpConsts"]
 ASSUMPTIONS = [
     "XPath numbers: the engine is parametric in the number type; the driver instantiates IEEE doubles, libyang uses x87 long double — generated numbers "
     "stay on small integers and dyadic fractions where both are exact (DESIGN §3); results are compared in thousandths, NaN/±Inf as tokens",
-    "string operands compared with a node of a non-string type are canonised by libyang first (set_comp_canonize, deliberate): generated strings are "
-    "never valid non-canonical lexical forms of int32/bits/identityref and every inner node of a generated tree has >= 2 terminal descendants, so this "
-    "is the identity on the generated fragment",
+    "string operands compared with a terminal of a non-string type are canonised by libyang first (set_comp_canonize, deliberate, finding F355): "
+    "the engine does the same (switch canonStr) for int*/uint*/decimal64/bits/identityref terminals and leafrefs to them through the value models of "
+    "property C03, keyed by `#type` facts; generated strings include valid non-canonical lexical forms (xpcomp.NONCANON_POOL, Gen.noncanon_of); "
+    "union / instance-identifier / binary / empty terminals are not in the test schema",
+    "schema facts of the engine (identity DAG, enum values, leafref paths, value types) are derived by python from the YANG text of the test modules "
+    "(xpcomp.yang_facts, a statement parser of its own; libyang is not asked) and travel as `#` header lines of the dump in every eval request; "
+    "deref() is modelled for leafrefs whose path has no predicate; re-match() patterns stay inside the XSD subset on which the XsdRe model of C18 "
+    "and libyang's XSD->PCRE2 rewrite agree (xpcomp.RE_POOL); an unprefixed identity name is generated only when the context node is a data node (F353)",
     "the XML view handed to the engine is libyang's own dump of the parsed tree (module, name, canonical value per node in document order); "
     "parsing, implicit nodes and ordering are not under test here",
     "name() returns `module:name` (LY_VALUE_JSON prefixes); an unprefixed name test matches every module (names defined by two modules under one "
@@ -41,13 +46,15 @@ ASSUMPTIONS = [
 TRUSTED = ["harness/api_xpath.c, harness/wb_xpath.c",
            "python AST -> XPath text / prefix form renderers in tools/checks/xpcomp.py (cross-checked on every evaluation: the text parsed by the "
            "model parser and the prefix form must denote the same tree)", "tools/extractors/xpath.py",
+           "xpcomp.yang_facts / yang_parse: the YANG statement parser that derives the schema facts of the engine (identity DAG, enum values incl. auto-assigned "
+           "ones, bit positions, leafref paths and target types) from the text of the test modules",
            "LyModel/XPath/FloatNum.lean (Float instance of the number type, driver only)"]
 
 HARNESS = "api_xpath"
 COMP = "xpath"
-ALL = 8191
+ALL = 32767
 # Quirks bit -> finding
-QBITS = {0: "F38", 1: "F39", 2: "F40", 3: "F41", 4: "F250", 5: "F251", 6: "F252", 7: "F253", 8: "F254", 9: "F255", 10: "F256", 11: "F261", 12: "F264"}
+QBITS = {0: "F38", 1: "F39", 2: "F40", 3: "F41", 4: "F250", 5: "F251", 6: "F252", 7: "F253", 8: "F254", 9: "F255", 10: "F256", 11: "F261", 12: "F264", 13: "F355", 14: "F354"}
 
 
 def classify(component, what, case):
@@ -71,6 +78,8 @@ def classify(component, what, case):
             return "F259"
         if "null pointer" in err and (fnname in ("xpath_bit_is_set", "xpath_deref", "xpath_enum_value") or "in xpath_bit_is_set" in err):
             return "F32"
+        if "null pointer" in err and "lys_module" in err and (fnname == "xpath_derived_" or "in xpath_derived_" in err):
+            return "F353"
         if "null pointer" in err and (fnname == "xpath_sum" or "in xpath_sum" in err):
             return "F263"
     return None
@@ -163,7 +172,8 @@ def run_groups(cx, groups, kind_tag):
             dumps[gi] = r[1]
         else:
             cx.notes.append("tree %d rejected: %s" % (gi, r))
-    # pass 2: same lines to both sides
+    # pass 2: same lines to both sides; an evaluation request carries the schema facts (derived by python from the YANG text) in front of the dump
+    fdumps = {gi: X.with_facts(d) for gi, d in dumps.items()}
     out = []
     lines, index = [schema_line("s")], {}
     for gi, (xml, items) in enumerate(groups):
@@ -172,7 +182,7 @@ def run_groups(cx, groups, kind_tag):
         for ii, (op, c, e, meta) in enumerate(items):
             txt = meta.get("text") or X.render(e)
             lid = "e%d_%d" % (gi, ii)
-            lines.append("%s %s %s %d %s %s %s %d" % (lid, COMP, op, c, hexs(txt), hexs(model_prefix(e)), dumps[gi], live_mask(cx)))
+            lines.append("%s %s %s %d %s %s %s %d" % (lid, COMP, op, c, hexs(txt), hexs(model_prefix(e)), fdumps[gi], live_mask(cx)))
             index[lid] = (gi, ii)
     ri = run_impl_stateful(cx, lines)
     rm = cx.run_model(lines)
@@ -226,7 +236,7 @@ def rec_law(cx, results):
     for (gi, ii, l, a, b, dump) in results:
         t = l.split()
         if t[2] != "eval": continue
-        if a[0] != "ok" and a[:2] != ["err", "ArgType"] and a[:2] != ["err", "InvalidOp"]:
+        if a[0] != "ok" and a[:2] not in (["err", "ArgType"], ["err", "InvalidOp"], ["err", "Inval"], ["err", "Valid"], ["err", "NoModule"]):
             continue
         need.append((l, a, a == b))
     body = lambda l: " ".join(l.split()[3:7])
@@ -334,12 +344,22 @@ def run(cx):
             c = rng.randrange(0, len(nodes) + 1) if rng.random() < 0.8 else 0
             cur = cursor_of(nodes, c)
             d = rng.choice([1, 2, depth, depth])
+            g.nonroot = c != 0
             e = g.expr("any", d, cur)
             if X.size(e) > 60: continue
             items.append(("eval", c, e, {"text": X.render(e, rng)}))
             if e[0] in ("path", "filter") or (e[0] == "bin" and e[1] == "union"):
                 if rng.random() < 0.3:
                     items.append(("find", c, e, {"text": X.render(e, rng)}))
+        # RFC 7950 section 10 functions and canonising comparisons, type-directed, from random context nodes
+        for k in range(cx.n(60, 160)):
+            c = rng.randrange(0, len(nodes) + 1) if nodes else 0
+            g.nonroot = c != 0
+            y = rng.random()
+            e = (g.yang_bool(2, cursor_of(nodes, c)) if y < 0.7 else
+                 X.fn("enum-value", g.typed_path([X.ENUM, X.ENUM2, X.INT])[1]) if y < 0.8 else
+                 rng.choice([lambda d: d, lambda d: X.fn("count", d), lambda d: ("path", ("E", d), [X.st(X.NODE, "parent"), X.st(X.STAR)])])(g.deref(2, cursor_of(nodes, c))))
+            items.append(("eval", c, e, {"text": X.render(e, rng)}))
         # systematic part: every axis x node test x positional predicate from a few context nodes (and one more step behind it)
         for c in sorted(set([0] + [rng.randrange(1, len(nodes) + 1) for _ in range(cx.n(2, 4))])) if nodes else []:
             names = sorted({(n[1], n[2]) for n in nodes})
@@ -388,7 +408,7 @@ def witnesses(cx):
         ws = [(fid, c, e) for (fid, c, e) in X.WITNESSES if fid in NOT_MIRRORED]
         lines = [schema_line("s"), "t %s tree x %s %s" % (COMP, hexs(X.WITNESS_XML), dumps[0])]
         for n, (fid, c, e) in enumerate(ws):
-            lines.append("w%d %s eval %d %s %s %s" % (n, COMP, c, hexs(X.render(e)), hexs(model_prefix(e)), dumps[0]))
+            lines.append("w%d %s eval %d %s %s %s" % (n, COMP, c, hexs(X.render(e)), hexs(model_prefix(e)), X.with_facts(dumps[0])))
         ri = run_impl_stateful(cx, lines)
         rm = cx.run_model(["w%d %s evalq 0 %s" % (n, COMP, " ".join(lines[n + 2].split()[3:])) for n in range(len(ws))])
         for n, (fid, c, e) in enumerate(ws):
@@ -602,6 +622,7 @@ def mustwhen_law(cx, nvar):
         rng = cx.sub_rng("must%d" % vi)
         xml, vals = X.gen_tree(rng, X.SCHEMA1, density=0.9, maxinst=3)
         g = X.Gen(rng, X.SCHEMA1, vals, always_prefix=True)
+        g.nonroot = True
         where = rng.choice(["c", "c", "l1", "s"])
         sch = [n for n in X.SCHEMA1 if n["name"] == "c"]
         cur = sch if where == "c" else sch + [k for k in sch[0]["kids"] if k["name"] == ("l1" if where == "l1" else "s") and k["mod"] == X.A]
